@@ -1,0 +1,19 @@
+//go:build verif
+
+package snmp
+
+// Contract for the SNMP handler's amplification limit (property C10), checked by /verif/govc.
+// See services/contracts_verif.go for the ghost state (written, totalgrants) and the limiter.
+//
+//@ func (*snmpService).Handle
+//@   physical 0 <= conn.written && conn.written < 1<<49 && 0 <= totalgrants && totalgrants < 1<<49
+//@   requires conn != nil
+//@   callpre services.(*Limiter).Allow: ip == raddr(conn)
+//@   ensures [amp] conn.written - old(conn.written) <= totalgrants - old(totalgrants)
+//@   modifies *
+//
+// Builds the codec context from the ASN.1 library's constructors (frame trusted, not verified).
+//@ func Asn1Context
+//@   trusted
+//@   nonnil
+//@   modifies nothing
